@@ -436,6 +436,7 @@ class FnBlock:
         self.rename = None
         self.sigsub = []
         self.bodysub = []
+        self.contract_loops = set()   # loops whose invariant states the property itself: its failure is contract-level
 
 
 def render_fn(repo: Repo, fb: FnBlock, rules: Counter, info: dict, canary: bool = False) -> str:
@@ -481,7 +482,10 @@ def render_fn(repo: Repo, fb: FnBlock, rules: Counter, info: dict, canary: bool 
         if n < 1 or n > len(loops):
             raise LostAnchor(f'loop {n} of fn {fb.name} not found (body has {len(loops)} loops)')
         (p, o, c) = loops[n - 1]
-        ins.append((o, '\n' + text.rstrip() + '\n'))
+        if n in fb.contract_loops:
+            ins.append((o, '\n/*CONTRACT-INV-BEGIN*/' + text.rstrip() + '/*CONTRACT-INV-END*/\n'))
+        else:
+            ins.append((o, '\n' + text.rstrip() + '\n'))
     for where, text0 in fb.hints:
         text = '/*HINT-BEGIN*/' + text0 + '/*HINT-END*/'
         w = where.split(None, 1)
@@ -637,6 +641,8 @@ def parse_fn_block(lines, i):
         elif s2.startswith('//@loop '):
             flush()
             cur = ('loop', s2.split()[1])
+            if len(s2.split()) > 2 and s2.split()[2] == 'contract':
+                fb.contract_loops.add(int(s2.split()[1]))
         elif s2.startswith('//@hint '):
             flush()
             cur = ('hint', s2[len('//@hint '):].strip())
@@ -739,4 +745,14 @@ def build_unit(template_path: str, repo_root: str, verif_root: str, canary: bool
         spans.append((final.count('\n', 0, a) + 1, final.count('\n', 0, b) + 1))
         pos = b + 1
     info['hint_spans'] = spans
+    cspans = []
+    pos = 0
+    while True:
+        a = final.find('/*CONTRACT-INV-BEGIN*/', pos)
+        if a < 0:
+            break
+        b = final.find('/*CONTRACT-INV-END*/', a)
+        cspans.append((final.count('\n', 0, a) + 1, final.count('\n', 0, b) + 1))
+        pos = b + 1
+    info['contract_inv_spans'] = cspans
     return final, info
